@@ -190,6 +190,81 @@ def bind (ll : LL) (args : List Obj) : Except BindErr (List (String × Obj)) :=
         | .ok kb => .ok (front ++ restB ++ kb ++ bindAux ll.aux)
       else .ok (front ++ restB ++ bindAux ll.aux)
 
+/-! ### initial forms of `&aux` variables
+
+    `&optional`/`&key` defaults are *values* in slip ("a list of a symbol and a default value",
+    documentation of defun): `bind` takes them as they are written. The initial form of an `&aux`
+    variable is evaluated when the function is called, left to right, each in the scope of all
+    parameters and of the `&aux` variables before it. The fragment of forms the model evaluates:
+    constants, variables, `(quote x)`, `(list form*)`. -/
+
+inductive InitErr where
+  | unbound (name : String)     -- a variable that no earlier parameter binds
+  | unsupported                 -- a form outside the modelled fragment
+  deriving Repr, DecidableEq
+
+def lookupB (env : List (String × Obj)) (n : String) : Option Obj :=
+  match env with
+  | [] => none
+  | (m, v) :: rest => if m = n then some v else lookupB rest n
+
+def evalInit (env : List (String × Obj)) : Nat → Obj → Except InitErr Obj
+  | 0, _ => .error .unsupported
+  | _ + 1, .sym n =>
+    match lookupB env n with
+    | some v => .ok v
+    | none => .error (.unbound n)
+  | _ + 1, .cons (.sym "quote") (.cons x .nil) => .ok x
+  | fuel + 1, .cons (.sym "list") as =>
+    match as.toList? with
+    | none => .error .unsupported
+    | some xs =>
+      match xs.mapM (evalInit env fuel) with
+      | .ok vs => .ok (Obj.ofList vs)
+      | .error e => .error e
+  | _ + 1, .cons _ _ => .error .unsupported
+  | _ + 1, o => .ok o
+
+def Obj.depth : Obj → Nat
+  | .cons a d => max (Obj.depth a) (Obj.depth d) + 1
+  | _ => 1
+
+/-- the `&aux` variables one after the other; `env` = every binding made so far -/
+def evalAuxSeq (env : List (String × Obj)) : List Param → Except InitErr (List (String × Obj))
+  | [] => .ok []
+  | p :: ps =>
+    match evalInit env (Obj.depth p.default + 1) p.default with
+    | .error e => .error e
+    | .ok v =>
+      match evalAuxSeq (env ++ [(p.name, v)]) ps with
+      | .error e => .error e
+      | .ok bs => .ok ((p.name, v) :: bs)
+
+inductive CallErr where
+  | bind (e : BindErr)
+  | init (e : InitErr)
+  deriving Repr, DecidableEq
+
+/-- `bind` with the `&aux` initial forms evaluated: the parameter bindings of `bind` (everything
+    before the `&aux` entries) followed by the evaluated `&aux` variables -/
+def bindE (ll : LL) (args : List Obj) : Except CallErr (List (String × Obj)) :=
+  match bind ll args with
+  | .error e => .error (.bind e)
+  | .ok b =>
+    let params := b.take (b.length - ll.aux.length)
+    match evalAuxSeq params ll.aux with
+    | .error e => .error (.init e)
+    | .ok xs => .ok (params ++ xs)
+
+/-! ### method combination: which arguments the next method sees
+
+    `steps[i] = some as`: the i-th method of the chain (`:around` methods, whoppers, then the
+    primary method) calls `(call-next-method as…)` / `(continue-whopper as…)`; `none`: it calls
+    `(call-next-method)` without arguments, which passes on the arguments it was called with. -/
+def chainArgs : List (Option (List Obj)) → List Obj → List (List Obj)
+  | [], cur => [cur]
+  | s :: ss, cur => cur :: chainArgs ss (s.getD cur)
+
 /-! ### documented lambda lists of built-ins (names only) -/
 
 /-- a documented lambda list: argument names with the & markers in between -/
